@@ -225,12 +225,13 @@ def run_real(h, servertype):
                     rig.connect(st[1])
                     continue
                 if st[6] and st[6][0] == "fresh-handshake":
-                    out["settled"] = rig.settle_pool()
+                    rig.settle_pool()
                     out["snap"]["post"] = rig.accounting()
                     out["fresh_pool_full"] = rig.pool_full() if servertype == "thread" else False
                 rig.deliver(st[1], common.unhx(st[2]), st[3], st[4])
             rig.settle_pool()
             out["snap"]["end"] = rig.accounting()
+            out["settled"] = not rig.unsettled
         except srvkit.Stuck as x:
             out["stuck"] = repr(x)
         out["loop_alive"] = rig.loop_alive
@@ -389,7 +390,7 @@ def _run(ctx, name, n, do_model):
     stuck = 0
     for h in hists:
         if stuck >= 3:
-            ctx.notes.append("C05: stopped after 3 stuck histories (every further one would wait for the same dead thread)")
+            ctx.notes.append("C05: stopped after 3 stuck / unsettled runs (every further one would wait for its deadline again)")
             break
         for st in ("thread", "multiplex"):
             ml = c05_gen.model_line(h, st)
@@ -400,8 +401,9 @@ def _run(ctx, name, n, do_model):
             for s in h["steps"]:
                 if s[0] == "send" and s[1] in h["hostile"]:
                     ctx.count("hostile:" + (s[7] if len(s) > 7 else "semantic").split(":")[0] + (":unclassified" if s[5] is None else ""))
-            if out["stuck"]:
+            if out["stuck"] or not out.get("settled", True):
                 stuck += 1
+            if out["stuck"]:
                 continue
             if ml is not None:
                 lines.append(ml)
